@@ -121,6 +121,9 @@ func judgeC12(hi *Hist) []*Violation {
 			drawn[g.Bar] = true
 		}
 		for kk, recs := range cols {
+			if len(recs) >= 2 {
+				note("c12_columns_checked")
+			}
 			max := 0
 			for _, rec := range recs {
 				if n := decNeed(rec.Text, rec.W, rec.C); n > max {
@@ -308,8 +311,10 @@ func judgeC06(hi *Hist) []*Violation {
 			seq = append(seq, m)
 		}
 		if unspecified {
+			note("c06_frames_unspecified")
 			continue
 		}
+		note("c06_frames_ordered")
 		// popped bars: in the frame in which they are popped they sit above every bar that stays
 		for i, m := range seq {
 			if m.popd && lastFrameOf[m.bar] == k && k < len(frames)-1 {
@@ -434,6 +439,7 @@ func judgeC18(hi *Hist) []*Violation {
 				}
 			}
 			popOrder = append(popOrder, bf.Idx)
+			note("c18_pops_checked")
 		} else if auto && bf.Final != nil && (bf.Final.Completed || bf.Final.Aborted) {
 			// still in the last frame: it must be finished there (it stays on screen as drawn)
 			if g != nil && !isTerminalFlags(g.Flags) {
